@@ -1057,11 +1057,17 @@ class _PostStep(Contract):
         return True
 
     def havoc(self, S, cenv, tag):
+        # ghost log of the abstract steps in the order they are called (with their scalar arguments): the caller's contract can demand that each one runs
+        args = tuple(cenv.get(p_) for p_ in self._params if isinstance(cenv.get(p_), (int, bool)))
+        S.ex.ghost.setdefault("steps", []).append((self.qualname.split(".")[-1],) + args)
         if self._havoc:
             self._havoc(S, cenv, tag)
 
     def result(self, S, env):
-        return self._result(S) if self._result else None
+        r = self._result(S) if self._result else None
+        if self.qualname.endswith("getCombiScheme"):
+            S.ex.ghost["scheme_result"] = r
+        return r
 
     def post(self, S, old, env, result):
         return self._post(S, old, env, result) if self._post else []
@@ -1171,7 +1177,18 @@ class PostprocessingBody(Contract):
     def post(self, S, old, env, result):
         f = env["self"].fields
         lm = f["lmax"].to_symbolic() if f["lmax"].concrete else f["lmax"]
-        out = []
+        steps = [(x if x[0] in ("rebalance", "apply_remove") else x[:1]) for x in S.ex.ghost.get("steps", []) if x[0] != "raise_lmax"]
+        reb = old["self"].fields["rebalancing"]
+        with_reb = [("apply_remove", True), ("refinement_postprocessing",), ("reinit_new_objects",)] + [("rebalance", d) for d in range(self.ndim)] + [("getCombiScheme",)]
+        without = [x for x in with_reb if x[0] != "rebalance"]
+        order_ok = (steps == with_reb) if any(x[0] == "rebalance" for x in steps) else (steps == without)
+        reb_ok = z3.BoolVal(True)
+        if not isinstance(reb, bool):
+            reb_ok = (reb == z3.BoolVal(any(x[0] == "rebalance" for x in steps)))
+        out = [Cl("split-intervals-are-removed-and-the-rest-sorted-cursors-and-markers-reset-before-the-coarsening-update", order_ok, prop=True),
+               Cl("every-dimension-is-rebalanced-exactly-when-rebalancing-is-on", reb_ok),
+               Cl("scheme-is-recomputed-after-the-level-updates", f.get("scheme") is not None and f.get("scheme") is S.ex.ghost.get("scheme_result")),
+               Cl("caches-of-the-previous-structure-are-dropped", f.get("subtraction_value_cache") == {} and f.get("max_level_dict") == {})]
         for c, cont in enumerate(f["refinement"].fields["refinementContainers"].items):
             o = cont.fields["refinementObjects"]
             j = z3.Int("qj%d" % c)
